@@ -53,6 +53,8 @@ pub enum BEv {
     ListenFailure { tag: u8, id: ConnectionId, kind: String, peer: Option<PeerId> },
     Other { tag: u8, what: String },
     FromHandler { tag: u8, peer: PeerId, id: ConnectionId, ev: HOut },
+    /// the behaviour handed a numbered notification to the Swarm (returned it from poll)
+    Emitted { tag: u8, n: u64, peer: PeerId, one: Option<ConnectionId> },
 }
 
 /// What a handler saw.
@@ -76,6 +78,8 @@ pub enum HEv {
 pub struct NodeLog {
     pub beh: Vec<(u64, BEv)>,
     pub hand: Vec<(u64, HEv)>,
+    /// virtual time of each `hand` entry (same index)
+    pub hand_at: Vec<Duration>,
     /// detailed handler logging (polls, keep-alive queries) on/off
     pub detail: bool,
 }
@@ -90,7 +94,9 @@ fn blog(log: &Log, e: BEv) {
 fn hlog(log: &Log, e: HEv) {
     let s = next_seq();
     trace!("  hnd {e:?}");
-    log.lock().unwrap().hand.push((s, e));
+    let mut l = log.lock().unwrap();
+    l.hand.push((s, e));
+    l.hand_at.push(elapsed());
 }
 
 /// Commands behaviour -> handler.
@@ -280,6 +286,13 @@ impl NetworkBehaviour for Probe {
 
     fn poll(&mut self, cx: &mut Context<'_>) -> Poll<ToSwarm<ProbeOut, THandlerInEvent<Self>>> {
         if let Some(a) = self.actions.pop_front() {
+            if let ToSwarm::NotifyHandler { peer_id, handler, event: HCmd::Payload { n, .. } } = &a {
+                let one = match handler {
+                    libp2p_swarm::NotifyHandler::One(c) => Some(*c),
+                    libp2p_swarm::NotifyHandler::Any => None,
+                };
+                blog(&self.log, BEv::Emitted { tag: self.tag, n: *n, peer: *peer_id, one });
+            }
             return Poll::Ready(a);
         }
         self.waker = Some(cx.waker().clone());
